@@ -201,6 +201,7 @@ func (ex *Exec) builtin(fr *Frame, st *State, b *ssa.Builtin, cc *ssa.CallCommon
 		}
 		set(Val{})
 	case "append":
+		ex.checkCallSites(fr, st, "append", args, pos)
 		set(ex.appendOp(fr, st, cc, args, pos))
 	case "delete":
 		mt := args[0].T.Underlying().(*types.Map)
